@@ -35,4 +35,21 @@ def notifies : List Notify := [
   ⟨"_set_closed", true, true⟩
 ]
 
+/-- every mention of self.out_window_size: (method, is a write, effectively under self.lock) -/
+def windowAccesses : List (String × Bool × Bool) := [
+  ("__init__", true, false),
+  ("__repr__", false, false),
+  ("send_ready", false, true),
+  ("_set_remote_channel", true, false),
+  ("_window_adjust", true, true),
+  ("_window_adjust", false, true),
+  ("_wait_for_send_window", false, true),
+  ("_wait_for_send_window", false, true),
+  ("_wait_for_send_window", false, true),
+  ("_wait_for_send_window", false, true),
+  ("_wait_for_send_window", true, true),
+  ("_wait_for_send_window", false, true),
+  ("_wait_for_send_window", false, true)
+]
+
 end PV.Generated.ChanLock
